@@ -27,6 +27,9 @@ type SuperOpts struct {
 	Root    string // /verif
 }
 
+// hangS: a traced case that stays current this long is a non-returning call.
+const hangS = 90
+
 type childOutcome struct {
 	res      *Result
 	died     bool
@@ -107,11 +110,40 @@ func runChild(o SuperOpts, p *Prop, b Batch, outDir string, idx int, trace bool,
 	}
 	to *= timeoutMul
 	done := make(chan error, 1)
-	go func() { done <- cmd.Wait() }()
+	fin := make(chan struct{})
+	go func() { done <- cmd.Wait(); close(fin) }()
 	var werr error
 	timedOut := false
+	hang := make(chan struct{})
+	if trace {
+		// In the traced re-run a single case that stays current for hangS
+		// seconds is a call that does not return.
+		go func() {
+			for {
+				time.Sleep(2 * time.Second)
+				select {
+				case <-fin:
+					return
+				default:
+				}
+				if st, err := os.Stat(tracePath); err == nil && time.Since(st.ModTime()) > hangS*time.Second {
+					close(hang)
+					return
+				}
+			}
+		}()
+	}
 	select {
 	case werr = <-done:
+	case <-hang:
+		timedOut = true
+		syscall.Kill(-cmd.Process.Pid, syscall.SIGQUIT)
+		select {
+		case werr = <-done:
+		case <-time.After(10 * time.Second):
+			syscall.Kill(-cmd.Process.Pid, syscall.SIGKILL)
+			werr = <-done
+		}
 	case <-time.After(time.Duration(to) * time.Second):
 		timedOut = true
 		syscall.Kill(-cmd.Process.Pid, syscall.SIGQUIT)
@@ -269,14 +301,14 @@ func Supervise(o SuperOpts) int {
 			}
 			if oc2.timedOut {
 				st, _ := os.Stat(casePath)
-				if st != nil && time.Since(st.ModTime()) < 120*time.Second {
+				if st != nil && time.Since(st.ModTime()) < hangS*time.Second {
 					agg.Inconclusive++
-					agg.InconcNotes = append(agg.InconcNotes, fmt.Sprintf("batch %s exceeded its watchdog twice without a single call hanging (last case younger than 120 s)", b.Name))
+					agg.InconcNotes = append(agg.InconcNotes, fmt.Sprintf("batch %s exceeded its watchdog twice without a single call hanging (last case younger than 90 s)", b.Name))
 					return
 				}
 				agg.NViol++
 				agg.Violations = append(agg.Violations, Violation{Prop: o.Prop, Kind: "hang", Key: tc.Key, Batch: b.Name,
-					Msg: "a single call did not return within 120 s (watchdog)", Payload: tc.Payload})
+					Msg: "a single call did not return within 90 s (watchdog of the traced re-run)\n" + oc2.logTail, Payload: tc.Payload})
 				return
 			}
 			agg.NViol++
